@@ -11,7 +11,7 @@ type GenOpts struct {
 	DPP     bool // DPP forms of VOP1/VOP2/VOPC
 	Mods    bool // VOP3 abs/neg/clamp/omod, SDWA sext/neg/abs/clamp, SMEM/FLAT glc/slc/tfe, DS gds
 	Exotic  bool // flat_scratch, xnack_mask, tba, tma, ttmp as operands
-	GFX9    bool // gfx9/CDNA3 extension fields: FLAT offset/seg/saddr, VOP3 op_sel
+	GFX9    bool // gfx9/CDNA3 extension fields: FLAT offset/seg/saddr, VOP3 op_sel, SDWA S0/S1 (SGPR sources)
 }
 
 // AllOpts enables everything GCN3 defines (not the gfx9 extensions).
@@ -128,6 +128,19 @@ func (g *gen) subDword(d *Desc, hasSrc1 bool) {
 		}
 		d.SDWA = s
 		d.Src0 = g.vgpr("src0")
+		if g.o.GFX9 {
+			// gfx9 SDWA: S0 / S1 mark src0 / src1 as SGPRs
+			switch rapid.IntRange(0, 3).Draw(g.t, "sdwa_sgpr") {
+			case 1:
+				s.S0 = true
+				d.Src0 = g.sgpr("src0")
+			case 2:
+				if hasSrc1 {
+					s.S1 = true
+					d.Src1 = g.sgpr("src1")
+				}
+			}
+		}
 		return
 	}
 	if g.o.DPP && rapid.IntRange(0, 11).Draw(g.t, "dpp") == 0 {
